@@ -115,9 +115,6 @@ class Dense:
         """Expectation value of ``op_0(i_0) op_1(i_1) ...`` (mathematical order) with explicit JW strings."""
         return self.amp([x for op, i in term for x in self.G(op, i, jw)])
 
-    def parity(self, term):
-        return sum(is_fermionic(self.site(i), op) for op, i in term) % 2
-
     def nsite(self, O, i):
         """``<bra|O|ket>`` for a dense n-site operator O[s_0', .., s_0, ..] acting on sites i, i+1, ..."""
         m = O.ndim // 2
